@@ -509,7 +509,7 @@ def flipLoader : Loader :=
 def flipState : State := { frames := #[{ vars := [("f", .native "flip" 0)] }], secure := true }
 
 example : (eval flipLoader 3 0 (.call (.ident "f" {}) [] [] {}) flipState).st.secure = false := by
-  simp [eval, invoke, evalArgs, callFn, callPure, flipLoader, flipState, C05.bind_def, getS, State.lookup,
+  simp [eval, invoke, evalArgs, callFn, callPure, callDate, flipLoader, flipState, C05.bind_def, getS, State.lookup,
     State.lookupF, State.frame, dictGet, RVal.isFunc, setArgs, addArgs, bindNamed, bindPositional, nativeArgNames,
     pure, EvalM.pure', Out.st]
 
